@@ -68,7 +68,10 @@ package meshops
 
 //@ func RemovedUnreferencedVertices
 //@   props C01 C02 C03
-//@   requires modeling.wf(m)
+//@   requires lengths: modeling.sameLen(m)
+//@   requires indices: modeling.idxOK(m)
+//@   requires empty: modeling.emptyOK(m)
+//@   requires topology: modeling.topoOK(m)
 //@   returns r
 //@   ensures unchanged_parts: r.topology == m.topology && r.materials == m.materials
 //@   ensures same_index_count: len(r.indices) == len(m.indices) && fresh(r.indices)
@@ -116,19 +119,11 @@ package meshops
 //@   props C01
 //@ func FilterFloat1Transformer.Transform frameonly
 //@   props C01
-//@ func FilterFloat1 frameonly
-//@   props C01
 //@ func FilterFloat2Transformer.Transform frameonly
-//@   props C01
-//@ func FilterFloat2 frameonly
 //@   props C01
 //@ func FilterFloat3Transformer.Transform frameonly
 //@   props C01
-//@ func FilterFloat3 frameonly
-//@   props C01
 //@ func FilterFloat4Transformer.Transform frameonly
-//@   props C01
-//@ func FilterFloat4 frameonly
 //@   props C01
 //@ func FlatNormalsTransformer.Transform frameonly
 //@   props C01
@@ -208,3 +203,54 @@ package meshops
 //@   props C01
 //@ func VertexColorSpace frameonly
 //@   props C01
+
+// ---- attribute filters: keep the vertices whose attribute value passes the predicate ----------------------
+// (C02: the index list handed on to the vertex compaction must be well-formed)
+//@ func FilterFloat1
+//@   props C01 C02
+//@   callback filter: pure
+//@   requires modeling.wf(m)
+//@   returns r
+//@   ensures [C02] well_formed_lengths: modeling.sameLen(r)
+//@   ensures [C02] well_formed_indices: modeling.idxOK(r)
+//@   loop 1:
+//@     invariant [C01,C02] keep: fresh(verticeToKeep) && 0 <= i
+//@   loop 2:
+//@     invariant [C01,C02] list: fresh(finalIndices) && 0 <= i
+//@     invariant [C02] kept_indices_in_range: forall j int :: 0 <= j && j < len(finalIndices) ==> modeling.valInRange(m, finalIndices[j])
+//@ func FilterFloat2
+//@   props C01 C02
+//@   callback filter: pure
+//@   requires modeling.wf(m)
+//@   returns r
+//@   ensures [C02] well_formed_lengths: modeling.sameLen(r)
+//@   ensures [C02] well_formed_indices: modeling.idxOK(r)
+//@   loop 1:
+//@     invariant [C01,C02] keep: fresh(verticeToKeep) && 0 <= i
+//@   loop 2:
+//@     invariant [C01,C02] list: fresh(finalIndices) && 0 <= i
+//@     invariant [C02] kept_indices_in_range: forall j int :: 0 <= j && j < len(finalIndices) ==> modeling.valInRange(m, finalIndices[j])
+//@ func FilterFloat3
+//@   props C01 C02
+//@   callback filter: pure
+//@   requires modeling.wf(m)
+//@   returns r
+//@   ensures [C02] well_formed_lengths: modeling.sameLen(r)
+//@   ensures [C02] well_formed_indices: modeling.idxOK(r)
+//@   loop 1:
+//@     invariant [C01,C02] keep: fresh(verticeToKeep) && 0 <= i
+//@   loop 2:
+//@     invariant [C01,C02] list: fresh(finalIndices) && 0 <= i
+//@     invariant [C02] kept_indices_in_range: forall j int :: 0 <= j && j < len(finalIndices) ==> modeling.valInRange(m, finalIndices[j])
+//@ func FilterFloat4
+//@   props C01 C02
+//@   callback filter: pure
+//@   requires modeling.wf(m)
+//@   returns r
+//@   ensures [C02] well_formed_lengths: modeling.sameLen(r)
+//@   ensures [C02] well_formed_indices: modeling.idxOK(r)
+//@   loop 1:
+//@     invariant [C01,C02] keep: fresh(verticeToKeep) && 0 <= i
+//@   loop 2:
+//@     invariant [C01,C02] list: fresh(finalIndices) && 0 <= i
+//@     invariant [C02] kept_indices_in_range: forall j int :: 0 <= j && j < len(finalIndices) ==> modeling.valInRange(m, finalIndices[j])
